@@ -53,7 +53,7 @@ type c09Server struct {
 	conns map[net.Conn]struct{}
 	// followUp: after a datagram that answers a different question, also send
 	// the right answer (the wrong one is then "a stale datagram in front").
-	followUp bool
+	followUp atomic.Bool
 
 	lateDelivered         atomic.Int64
 	lateDeliveredCollide  atomic.Int64
@@ -161,7 +161,7 @@ func (s *c09Server) serveUDP() {
 			if hasPrev && prev.key() != q.key() {
 				note += "answered previous " + prev.String()
 				send(c09Pack(c09Response(req.Id, prev, call.Gen, 60)))
-				if s.followUp {
+				if s.followUp.Load() {
 					send(right)
 				}
 			} else {
@@ -171,14 +171,14 @@ func (s *c09Server) serveUDP() {
 			o := s.w.other(q)
 			note += "answered " + o.String()
 			send(c09Pack(c09Response(req.Id, o, call.Gen, 60)))
-			if s.followUp {
+			if s.followUp.Load() {
 				send(right)
 			}
 		case c09WrongType:
 			o := c09OtherType(q)
 			note += "answered " + o.String()
 			send(c09Pack(c09Response(req.Id, o, call.Gen, 60)))
-			if s.followUp {
+			if s.followUp.Load() {
 				send(right)
 			}
 		case c09WrongID:
@@ -384,7 +384,7 @@ func (e *c09Env) c09L2Round(r *rand.Rand, seq int) {
 		return
 	}
 	defer srv.stop()
-	srv.followUp = r.IntN(2) == 0
+	srv.followUp.Store(r.IntN(2) == 0)
 	dnsForwarderFactory = newDnsForwarder // production factory
 	tp := c09Topology{name: "L2-" + scheme, scheme: scheme, upstream: srv.addr, dsts: []netip.AddrPort{srv.addr}, real: true}
 	ctrl, err := e.c09NewController(tp, nil)
@@ -580,7 +580,7 @@ func (e *c09Env) c09L3Round(r *rand.Rand, seq int) {
 	// 5s resolution timeout (a constant we do not edit): here the right answer
 	// follows the wrong one; the wrong-only server is covered by L2 with short
 	// contexts.
-	srv.followUp = true
+	srv.followUp.Store(true)
 	tp := c09Topology{name: "L3-asis-udp", scheme: "asis", dsts: []netip.AddrPort{srv.addr}, real: true}
 	switch r.IntN(3) {
 	case 0:
